@@ -3,7 +3,7 @@
   `Connection.setstate` with the per-connection caches) of `ZodbModel/Refs.lean`.
   Core Lean only.
 -/
-import Proofs.RefsTree
+import Proofs.RefsWriter
 namespace Proofs.Refs
 open ZodbModel ZodbModel.Refs ZodbModel.Refs.Tree
 
@@ -50,5 +50,407 @@ def ClsOK (store : Store) : Prop :=
 def ClsInv (lenv : LEnv) (ls : LState) : Prop :=
   ∀ (h : Nat) (x : LObj) (r : Record), ls.heap[h]? = some x → lookup (x.db, x.oid) lenv.store = some r →
     x.cls = r.cls ∧ x.broken = lenv.missing.contains r.cls
+
+/-! ### basic facts -/
+
+/-- old objects are untouched -/
+def Keep (ls ls' : LState) : Prop := ∀ (h : Nat) (x : LObj), ls.heap[h]? = some x → ls'.heap[h]? = some x
+
+/-- objects that did not exist before are ghosts -/
+def NewGhosts (ls ls' : LState) : Prop :=
+  ∀ (h : Nat) (x : LObj), ls'.heap[h]? = some x → ls.heap[h]? = none → x.state = none
+
+theorem keep_refl (ls : LState) : Keep ls ls := fun _ _ h => h
+theorem keep_trans {a b c : LState} (h1 : Keep a b) (h2 : Keep b c) : Keep a c :=
+  fun h x e => h2 h x (h1 h x e)
+theorem newGhosts_refl (ls : LState) : NewGhosts ls ls := fun h x e e' => by rw [e] at e'; cases e'
+theorem newGhosts_trans {a b c : LState} (k2 : Keep b c) (n1 : NewGhosts a b) (n2 : NewGhosts b c) :
+    NewGhosts a c := by
+  intro h x e e'
+  cases hb : b.heap[h]? with
+  | none => exact n2 h x e hb
+  | some y =>
+    have := k2 h y hb
+    rw [e] at this; cases this
+    exact n1 h x hb e'
+
+theorem lext_of_keep {ls ls' : LState} (h : Keep ls ls') : LExt ls ls' :=
+  fun i x e => ⟨x, h i x e, rfl, rfl, rfl, rfl⟩
+
+theorem lext_refl (ls : LState) : LExt ls ls := lext_of_keep (keep_refl ls)
+
+theorem lext_trans {a b c : LState} (h1 : LExt a b) (h2 : LExt b c) : LExt a c := by
+  intro h x e
+  obtain ⟨x1, e1, a1, a2, a3, a4⟩ := h1 h x e
+  obtain ⟨x2, e2, b1, b2, b3, b4⟩ := h2 h x1 e1
+  exact ⟨x2, e2, b1.trans a1, b2.trans a2, b3.trans a3, b4.trans a4⟩
+
+theorem leafFor_mono {db : Db} {ls ls' : LState} {tk : Tok} {lf : LLeaf} (he : LExt ls ls')
+    (h : LeafFor db ls tk lf) : LeafFor db ls' tk lf := by
+  cases tk with
+  | tup o c =>
+    obtain ⟨b, h', x, h1, h2, h3, h4, h5⟩ := h
+    obtain ⟨x', e', a1, a2, _, _⟩ := he h' x h3
+    exact ⟨b, h', x', h1, h2, e', a1.trans h4, a2.trans h5⟩
+  | oid o =>
+    obtain ⟨b, h', x, h1, h2, h3, h4, h5⟩ := h
+    obtain ⟨x', e', a1, a2, _, _⟩ := he h' x h3
+    exact ⟨b, h', x', h1, h2, e', a1.trans h4, a2.trans h5⟩
+  | multi d o c =>
+    obtain ⟨b, h', x, h1, h2, h3, h4, h5⟩ := h
+    obtain ⟨x', e', a1, a2, _, _⟩ := he h' x h3
+    exact ⟨b, h', x', h1, h2, e', a1.trans h4, a2.trans h5⟩
+  | multiOid d o =>
+    obtain ⟨b, h', x, h1, h2, h3, h4, h5⟩ := h
+    obtain ⟨x', e', a1, a2, _, _⟩ := he h' x h3
+    exact ⟨b, h', x', h1, h2, e', a1.trans h4, a2.trans h5⟩
+  | weak o d => exact h
+  | legacyWeak o => exact h
+
+theorem cacheInv_init : CacheInv LState.init :=
+  ⟨by intro k h e; simp [LState.init, lookup] at e, by intro h x e; simp [LState.init] at e⟩
+
+theorem stateInv_init (lenv : LEnv) : StateInv lenv LState.init := by
+  intro h x t e; simp [LState.init] at e
+
+theorem clsInv_init (lenv : LEnv) : ClsInv lenv LState.init := by
+  intro h x r e; simp [LState.init] at e
+
+/-- one in-memory object per (database, oid) -/
+theorem one_object_per_oid {ls : LState} (hi : CacheInv ls) {h1 h2 : Nat} {x1 x2 : LObj}
+    (e1 : ls.heap[h1]? = some x1) (e2 : ls.heap[h2]? = some x2) (hd : x1.db = x2.db)
+    (ho : x1.oid = x2.oid) : h1 = h2 := by
+  have a := hi.2 h1 x1 e1
+  have b := hi.2 h2 x2 e2
+  rw [hd, ho, b] at a
+  exact (Option.some.inj a).symm
+
+theorem stateInv_of_keep {lenv : LEnv} {ls ls' : LState} (hs : StateInv lenv ls) (hk : Keep ls ls')
+    (hn : NewGhosts ls ls') : StateInv lenv ls' := by
+  intro h x t e est
+  cases hb : ls.heap[h]? with
+  | none => rw [hn h x e hb] at est; cases est
+  | some y =>
+    have := hk h y hb
+    rw [e] at this; cases this
+    obtain ⟨r, hr, rel⟩ := hs h x t hb est
+    exact ⟨r, hr, Rel.imp (fun _ _ => leafFor_mono (lext_of_keep hk)) rel⟩
+
+/-! ### making a ghost -/
+
+/-- the ghost `newGhost` appends -/
+def ghostOf (db : Db) (oid : Oid) (c : Cls) (lenv : LEnv) : LObj :=
+  { db := db, oid := oid, cls := c, broken := lenv.missing.contains c, state := none }
+
+theorem newGhost_heap (ls : LState) (db : Db) (oid : Oid) (c : Cls) (lenv : LEnv) :
+    (newGhost ls db oid c lenv).2.heap = ls.heap ++ [ghostOf db oid c lenv] := rfl
+
+theorem newGhost_cache (ls : LState) (db : Db) (oid : Oid) (c : Cls) (lenv : LEnv) :
+    (newGhost ls db oid c lenv).2.cache = ((db, oid), ls.heap.length) :: ls.cache := rfl
+
+theorem newGhost_fst (ls : LState) (db : Db) (oid : Oid) (c : Cls) (lenv : LEnv) :
+    (newGhost ls db oid c lenv).1 = ls.heap.length := rfl
+
+theorem newGhost_spec {ls : LState} {db : Db} {oid : Oid} {c : Cls} {lenv : LEnv} (hi : CacheInv ls)
+    (hm : lookup (db, oid) ls.cache = none) :
+    CacheInv (newGhost ls db oid c lenv).2 ∧ Keep ls (newGhost ls db oid c lenv).2 ∧
+    NewGhosts ls (newGhost ls db oid c lenv).2 ∧
+    (newGhost ls db oid c lenv).2.heap[(newGhost ls db oid c lenv).1]? = some (ghostOf db oid c lenv) ∧
+    ∀ (h : Nat) (y : LObj), (newGhost ls db oid c lenv).2.heap[h]? = some y → ls.heap[h]? = none →
+      y = ghostOf db oid c lenv := by
+  have hkeep : Keep ls (newGhost ls db oid c lenv).2 := by
+    intro h x e
+    obtain ⟨hlt, _⟩ := List.getElem?_eq_some_iff.1 e
+    rw [newGhost_heap, List.getElem?_append_left hlt]; exact e
+  have hnew : ∀ (h : Nat) (y : LObj), (newGhost ls db oid c lenv).2.heap[h]? = some y →
+      ls.heap[h]? = none → h = ls.heap.length ∧ y = ghostOf db oid c lenv := by
+    intro h y e e'
+    have hge := List.getElem?_eq_none_iff.1 e'
+    rw [newGhost_heap, List.getElem?_append_right hge] at e
+    cases hk : h - ls.heap.length with
+    | zero =>
+      rw [hk] at e
+      simp only [List.getElem?_cons_zero, Option.some.injEq] at e
+      exact ⟨by omega, e.symm⟩
+    | succ k => rw [hk] at e; simp at e
+  have hself : (newGhost ls db oid c lenv).2.heap[ls.heap.length]? = some (ghostOf db oid c lenv) := by
+    rw [newGhost_heap]; exact List.getElem?_concat_length
+  refine ⟨⟨?_, ?_⟩, hkeep, ?_, ?_, ?_⟩
+  · intro k h e
+    rw [newGhost_cache, lookup_cons] at e
+    split at e
+    · rename_i hk
+      cases e
+      exact ⟨_, hself, hk.symm⟩
+    · obtain ⟨x, ex, hx⟩ := hi.1 k h e
+      exact ⟨x, hkeep h x ex, hx⟩
+  · intro h x e
+    rw [newGhost_cache, lookup_cons]
+    cases hb : ls.heap[h]? with
+    | none =>
+      obtain ⟨rfl, rfl⟩ := hnew h x e hb
+      simp [ghostOf]
+    | some y =>
+      have := hkeep h y hb
+      rw [e] at this; cases this
+      have hc := hi.2 h x hb
+      split
+      · rename_i hk
+        rw [hk, hm] at hc; cases hc
+      · exact hc
+  · intro h x e e'
+    rw [(hnew h x e e').2]; rfl
+  · rw [newGhost_fst]; exact hself
+  · intro h y e e'
+    exact (hnew h y e e').2
+
+/-! ### `Connection.get`, `load_persistent`, `load_oid`, `_persistent_load` -/
+
+/-- what every object-yielding loader guarantees -/
+def Loaded (ls ls' : LState) (db : Db) (oid : Oid) (h : Nat) : Prop :=
+  CacheInv ls' ∧ Keep ls ls' ∧ NewGhosts ls ls' ∧
+  ∃ x : LObj, ls'.heap[h]? = some x ∧ x.db = db ∧ x.oid = oid
+
+theorem connGet_spec {lenv : LEnv} {ls ls' : LState} {db : Db} {oid : Oid} {h : Nat}
+    (hi : CacheInv ls) (hg : connGet lenv ls db oid = .ok (h, ls')) : Loaded ls ls' db oid h := by
+  unfold connGet at hg
+  cases hc : lookup (db, oid) ls.cache with
+  | some h' =>
+    simp only [hc, Except.ok.injEq, Prod.mk.injEq] at hg
+    obtain ⟨rfl, rfl⟩ := hg
+    obtain ⟨x, ex, hx⟩ := hi.1 _ _ hc
+    simp only [Prod.mk.injEq] at hx
+    exact ⟨hi, keep_refl _, newGhosts_refl _, x, ex, hx.1, hx.2⟩
+  | none =>
+    simp only [hc] at hg
+    cases hs : lookup (db, oid) lenv.store with
+    | none => simp [hs] at hg
+    | some r =>
+      simp only [hs, Except.ok.injEq] at hg
+      obtain ⟨a, b, c, ex, _⟩ := newGhost_spec (c := r.cls) (lenv := lenv) hi hc
+      rw [hg] at a b c ex
+      exact ⟨a, b, c, _, ex, rfl, rfl⟩
+
+theorem loadPersistent_spec {lenv : LEnv} {ls ls' : LState} {db : Db} {o : OidTok} {c : Cls} {h : Nat}
+    (hi : CacheInv ls) (hg : loadPersistent lenv ls db o c = .ok (h, ls')) :
+    ∃ b, o.norm = .ok b ∧ Loaded ls ls' db b h := by
+  unfold loadPersistent at hg
+  cases hn : o.norm with
+  | error e => simp [hn] at hg
+  | ok b =>
+    refine ⟨b, rfl, ?_⟩
+    simp only [hn] at hg
+    cases hc : lookup (db, b) ls.cache with
+    | some h' =>
+      simp only [hc, Except.ok.injEq, Prod.mk.injEq] at hg
+      obtain ⟨rfl, rfl⟩ := hg
+      obtain ⟨x, ex, hx⟩ := hi.1 _ _ hc
+      simp only [Prod.mk.injEq] at hx
+      exact ⟨hi, keep_refl _, newGhosts_refl _, x, ex, hx.1, hx.2⟩
+    | none =>
+      simp only [hc, Except.ok.injEq] at hg
+      obtain ⟨a, b', c', ex, _⟩ := newGhost_spec (c := c) (lenv := lenv) hi hc
+      rw [hg] at a b' c' ex
+      exact ⟨a, b', c', _, ex, rfl, rfl⟩
+
+theorem loadOid_spec {lenv : LEnv} {ls ls' : LState} {db : Db} {o : OidTok} {h : Nat}
+    (hi : CacheInv ls) (hg : loadOid lenv ls db o = .ok (h, ls')) :
+    ∃ b, o.norm = .ok b ∧ Loaded ls ls' db b h := by
+  unfold loadOid at hg
+  cases hn : o.norm with
+  | error e => simp [hn] at hg
+  | ok b =>
+    simp only [hn] at hg
+    exact ⟨b, rfl, connGet_spec hi hg⟩
+
+theorem persistentLoad_spec {lenv : LEnv} {db : Db} {ls ls' : LState} {tk : Tok} {lf : LLeaf}
+    (hi : CacheInv ls) (hp : persistentLoad lenv db ls tk = .ok (lf, ls')) :
+    CacheInv ls' ∧ Keep ls ls' ∧ NewGhosts ls ls' ∧ LeafFor db ls' tk lf := by
+  cases tk with
+  | tup o c =>
+    simp only [persistentLoad] at hp
+    cases hl : loadPersistent lenv ls db o c with
+    | error e => simp [hl] at hp
+    | ok q =>
+      obtain ⟨h, ls1⟩ := q
+      simp only [hl, Except.ok.injEq, Prod.mk.injEq] at hp
+      obtain ⟨rfl, rfl⟩ := hp
+      obtain ⟨b, hb, a1, a2, a3, x, ex, h1, h2⟩ := loadPersistent_spec hi hl
+      exact ⟨a1, a2, a3, b, h, x, hb, rfl, ex, h1, h2⟩
+  | oid o =>
+    simp only [persistentLoad] at hp
+    cases hl : loadOid lenv ls db o with
+    | error e => simp [hl] at hp
+    | ok q =>
+      obtain ⟨h, ls1⟩ := q
+      simp only [hl, Except.ok.injEq, Prod.mk.injEq] at hp
+      obtain ⟨rfl, rfl⟩ := hp
+      obtain ⟨b, hb, a1, a2, a3, x, ex, h1, h2⟩ := loadOid_spec hi hl
+      exact ⟨a1, a2, a3, b, h, x, hb, rfl, ex, h1, h2⟩
+  | weak o d =>
+    simp only [persistentLoad] at hp
+    cases hn : o.norm with
+    | error e => simp [hn] at hp
+    | ok b =>
+      simp only [hn, Except.ok.injEq, Prod.mk.injEq] at hp
+      obtain ⟨rfl, rfl⟩ := hp
+      exact ⟨hi, keep_refl _, newGhosts_refl _, b, hn, rfl⟩
+  | legacyWeak o =>
+    simp only [persistentLoad] at hp
+    cases hn : o.norm with
+    | error e => simp [hn] at hp
+    | ok b =>
+      simp only [hn, Except.ok.injEq, Prod.mk.injEq] at hp
+      obtain ⟨rfl, rfl⟩ := hp
+      exact ⟨hi, keep_refl _, newGhosts_refl _, b, hn, rfl⟩
+  | multi d o c =>
+    simp only [persistentLoad] at hp
+    split at hp
+    · simp at hp
+    · cases hl : loadPersistent lenv ls d o c with
+      | error e => simp [hl] at hp
+      | ok q =>
+        obtain ⟨h, ls1⟩ := q
+        simp only [hl, Except.ok.injEq, Prod.mk.injEq] at hp
+        obtain ⟨rfl, rfl⟩ := hp
+        obtain ⟨b, hb, a1, a2, a3, x, ex, h1, h2⟩ := loadPersistent_spec hi hl
+        exact ⟨a1, a2, a3, b, h, x, hb, rfl, ex, h1, h2⟩
+  | multiOid d o =>
+    simp only [persistentLoad] at hp
+    split at hp
+    · simp at hp
+    · cases hl : loadOid lenv ls d o with
+      | error e => simp [hl] at hp
+      | ok q =>
+        obtain ⟨h, ls1⟩ := q
+        simp only [hl, Except.ok.injEq, Prod.mk.injEq] at hp
+        obtain ⟨rfl, rfl⟩ := hp
+        obtain ⟨b, hb, a1, a2, a3, x, ex, h1, h2⟩ := loadOid_spec hi hl
+        exact ⟨a1, a2, a3, b, h, x, hb, rfl, ex, h1, h2⟩
+
+/-! ### `Connection.setstate` -/
+
+theorem setState_get (ls : LState) (h : Nat) (t : Tree LLeaf) (j : Nat) :
+    (setState ls h t).heap[j]? =
+      (ls.heap[j]?).map (fun a => if h = j then { a with state := some t } else a) := by
+  simp only [setState, List.getElem?_modify]
+  rfl
+
+theorem setState_lext (ls : LState) (h : Nat) (t : Tree LLeaf) : LExt ls (setState ls h t) := by
+  intro j x e
+  rw [setState_get, e]
+  by_cases hj : h = j
+  · exact ⟨{ x with state := some t }, by simp [hj], rfl, rfl, rfl, rfl⟩
+  · exact ⟨x, by simp [hj], rfl, rfl, rfl, rfl⟩
+
+theorem setState_cacheInv {ls : LState} (hi : CacheInv ls) (h : Nat) (t : Tree LLeaf) :
+    CacheInv (setState ls h t) := by
+  refine ⟨?_, ?_⟩
+  · intro k j e
+    have e' : lookup k ls.cache = some j := e
+    obtain ⟨x, ex, hx⟩ := hi.1 k j e'
+    obtain ⟨x', ex', a1, a2, _, _⟩ := setState_lext ls h t j x ex
+    exact ⟨x', ex', by rw [a1, a2]; exact hx⟩
+  · intro j x e
+    rw [setState_get] at e
+    cases hb : ls.heap[j]? with
+    | none => rw [hb] at e; simp at e
+    | some y =>
+      rw [hb] at e
+      simp only [Option.map_some, Option.some.injEq] at e
+      have hc := hi.2 j y hb
+      show lookup (x.db, x.oid) ls.cache = some j
+      by_cases hj : h = j
+      · simp only [hj, if_true] at e; rw [← e]; exact hc
+      · simp only [hj, if_false] at e; rw [← e]; exact hc
+
+/-- the traversal of one state pickle -/
+theorem traverse_persistentLoad {lenv : LEnv} {db : Db} {ls ls' : LState} {t : Tree Tok}
+    {t' : Tree LLeaf} (hi : CacheInv ls) (hs : StateInv lenv ls)
+    (ht : traverse (persistentLoad lenv db) ls t = .ok (t', ls')) :
+    (CacheInv ls' ∧ StateInv lenv ls') ∧ LExt ls ls' ∧ Tree.Rel (LeafFor db ls') t t' := by
+  refine traverse_rel (f := persistentLoad lenv db) (fun s => CacheInv s ∧ StateInv lenv s) LExt
+    (fun s tk lf => LeafFor db s tk lf) lext_refl (fun _ _ _ => lext_trans)
+    (fun _ _ _ _ he h => leafFor_mono he h) ?_ ⟨hi, hs⟩ ht
+  intro s tk lf s' ⟨hi', hs'⟩ hp
+  obtain ⟨a1, a2, a3, a4⟩ := persistentLoad_spec hi' hp
+  exact ⟨⟨a1, stateInv_of_keep hs' a2 a3⟩, lext_of_keep a2, a4⟩
+
+theorem connSetstate_spec {lenv : LEnv} {ls ls' : LState} {h : Nat} (hi : CacheInv ls)
+    (hs : StateInv lenv ls) (hc : connSetstate lenv ls h = .ok ls') :
+    CacheInv ls' ∧ StateInv lenv ls' ∧ LExt ls ls' := by
+  unfold connSetstate at hc
+  cases hx : ls.heap[h]? with
+  | none => simp [hx] at hc
+  | some x =>
+    simp only [hx] at hc
+    cases hr : lookup (x.db, x.oid) lenv.store with
+    | none => simp [hr] at hc
+    | some r =>
+      simp only [hr] at hc
+      cases ht : traverse (persistentLoad lenv x.db) ls r.state with
+      | error e => simp [ht] at hc
+      | ok q =>
+        obtain ⟨t, ls1⟩ := q
+        simp only [ht, Except.ok.injEq] at hc
+        subst hc
+        obtain ⟨⟨i1, s1⟩, e1, rel⟩ := traverse_persistentLoad hi hs ht
+        have e2 := setState_lext ls1 h t
+        refine ⟨setState_cacheInv i1 h t, ?_, lext_trans e1 e2⟩
+        intro j y u ey eu
+        rw [setState_get] at ey
+        cases hb : ls1.heap[j]? with
+        | none => rw [hb] at ey; simp at ey
+        | some z =>
+          rw [hb] at ey
+          simp only [Option.map_some, Option.some.injEq] at ey
+          by_cases hj : h = j
+          · simp only [hj, if_true] at ey
+            subst ey
+            simp only at eu
+            cases eu
+            subst hj
+            obtain ⟨x1, ex1, a1, a2, _, _⟩ := e1 h x hx
+            rw [hb] at ex1; cases ex1
+            refine ⟨r, by simp only; rw [a1, a2]; exact hr, ?_⟩
+            simp only
+            rw [a1]
+            exact Rel.imp (fun _ _ => leafFor_mono e2) rel
+          · simp only [hj, if_false] at ey
+            subst ey
+            obtain ⟨r', hr', rel'⟩ := s1 j z u hb eu
+            exact ⟨r', hr', Rel.imp (fun _ _ => leafFor_mono e2) rel'⟩
+
+/-! ### whole sessions -/
+
+theorem lstep_inv {lenv : LEnv} {ls : LState} {op : LOp} (hi : CacheInv ls) (hs : StateInv lenv ls) :
+    CacheInv (lstep lenv ls op) ∧ StateInv lenv (lstep lenv ls op) ∧ LExt ls (lstep lenv ls op) := by
+  cases op with
+  | get db oid =>
+    simp only [lstep]
+    cases hg : connGet lenv ls db oid with
+    | error e => exact ⟨hi, hs, lext_refl _⟩
+    | ok q =>
+      obtain ⟨h, ls'⟩ := q
+      obtain ⟨a1, a2, a3, _⟩ := connGet_spec hi hg
+      exact ⟨a1, stateInv_of_keep hs a2 a3, lext_of_keep a2⟩
+  | activate h =>
+    simp only [lstep]
+    cases hg : connSetstate lenv ls h with
+    | error e => exact ⟨hi, hs, lext_refl _⟩
+    | ok ls' => exact connSetstate_spec hi hs hg
+
+theorem lfold_inv {lenv : LEnv} (ops : List LOp) {ls : LState} (hi : CacheInv ls)
+    (hs : StateInv lenv ls) :
+    CacheInv (ops.foldl (lstep lenv) ls) ∧ StateInv lenv (ops.foldl (lstep lenv) ls) := by
+  induction ops generalizing ls with
+  | nil => exact ⟨hi, hs⟩
+  | cons op ops ih =>
+    obtain ⟨a, b, _⟩ := lstep_inv (op := op) hi hs
+    exact ih a b
+
+theorem lrun_inv (lenv : LEnv) (ops : List LOp) :
+    CacheInv (lrun lenv ops) ∧ StateInv lenv (lrun lenv ops) :=
+  lfold_inv ops cacheInv_init (stateInv_init lenv)
 
 end Proofs.Refs
